@@ -597,7 +597,7 @@ class Terms(object):
                 n += 1
             if isinstance(x, ast.Return):
                 nret += 1
-        return n <= 12 and nret <= 2
+        return n <= 24 and nret <= 6
 
 
 def show(t, depth=0):
